@@ -35,14 +35,18 @@ OTHER = ["banner.png", "bg.jpg", "music.ogg", "readme.txt", "Thumbs.db", "video.
 
 
 def anchors():
-    import simfile
-    from simfile import dir as D
-    from simfile._private import extensions
+    from ..core import pick
 
-    return {"SimfileDirectory.__init__": D.SimfileDirectory.__init__, "SimfileDirectory.open": D.SimfileDirectory.open,
-            "SimfilePack._find_simfile_paths": D.SimfilePack._find_simfile_paths, "SimfilePack.simfile_dirs": D.SimfilePack.simfile_dirs,
-            "SimfilePack.simfiles": D.SimfilePack.simfiles, "opendir": simfile.opendir, "openpack": simfile.openpack,
-            "extensions.match": extensions.match}
+    return pick(
+        "simfile.dir:SimfileDirectory.__init__",
+        "simfile.dir:SimfileDirectory.open",
+        "simfile.dir:SimfilePack._find_simfile_paths",
+        "simfile.dir:SimfilePack.simfile_dirs",
+        "simfile.dir:SimfilePack.simfiles",
+        "simfile:opendir",
+        "simfile:openpack",
+        "simfile._private.extensions:match",
+    )
 
 
 def gen_dir(rng, depth, content_mode):
